@@ -189,6 +189,10 @@ def direction_B(ctx, thorough):
             for al in ((4096, 65536) if not thorough else (512, 8192, 1 << 20)):
                 tid += 1
                 plan.append((tid, fmt, al, True))
+        if fmt == "qcow2":   # images whose guest clusters live in an external data file (with and without the name extension)
+            for al in (512, 8192, 65536):
+                tid += 1
+                plan.append((tid, "qcow2-datafile", al, False))
     # StorageStream (Parallels storages stitched together) at every buffer size
     c10 = importlib.import_module("props.c10")
     for al in ALIGNS:
@@ -213,6 +217,10 @@ def direction_B(ctx, thorough):
             return t
         if fmt == "storage":
             t = c10.make_trace_hdd(tid, rng, 60 if thorough else 30, align=al)
+            t["align"], t["many"] = al, False
+            return t
+        if fmt == "qcow2-datafile":
+            t = mods["qcow2"].make_trace(tid, rng, 60 if thorough else 30, align=al, datafile=True)
             t["align"], t["many"] = al, False
             return t
         m = mods[fmt]
